@@ -448,17 +448,20 @@ fn maps_family(run: &Run, k: usize, lens: &[usize], fills: &[u8], orders: &[Vec<
 const HTAGS: [&[u8; 4]; 3] = [b"head", b"aaaa", b"CFF "];
 
 fn hist_blob(tag: usize, variant: usize) -> Vec<u8> {
-    // variant 0: 13-byte ramp; variant 1: 16 bytes of FF  (head >= 12 in both: adjustment engaged)
-    if variant == 0 {
-        blob(tag + 3, 13, 2)
-    } else {
-        blob(tag + 3, 16, 1)
+    // variant 0: 13-byte ramp; variant 1: 16 bytes of FF (head >= 12 in both: adjustment engaged);
+    // variant 2: the empty blob
+    match variant {
+        0 => blob(tag + 3, 13, 2),
+        1 => blob(tag + 3, 16, 1),
+        // a table supplied with length 0 is still a supplied table: copying must not replace it
+        _ => vec![],
     }
 }
 
 /// Source fonts for copy_missing_tables.
-/// S1, S2: harness-built, each with one tag overlapping HTAGS and one new tag (S2 has a `head`).
-/// S3, S4: the two members of the repository's TTC.ttc test collection, opened with
+/// S1, S2: harness-built, non-empty tables overlapping HTAGS plus new tags (S2 has a `head` and a
+/// `CFF `); S3: the three HTAGS as EMPTY tables.
+/// S4, S5: the two members of the repository's TTC.ttc test collection, opened with
 /// `FontRef::from_index` (real tables incl. `head`; table offsets are relative to the collection file).
 struct Sources {
     /// (file bytes, index within the file)
@@ -496,12 +499,20 @@ fn sources() -> Sources {
     let mut b = FontBuilder::new();
     b.add_raw(Tag::new(b"head"), vec![0xB1u8; 14]);
     b.add_raw(Tag::new(b"DSIG"), vec![0xB2u8; 4]);
-    let mut files = vec![(a.build(), 0), (b.build(), 0)];
+    b.add_raw(Tag::new(b"CFF "), vec![0xB3u8; 9]);
+    // S3: the three history tags present but EMPTY (so that copy(S3) then copy(S1/S2/TTC) must keep
+    // the empty tables, and add_raw(tag, empty) then copy(non-empty source) likewise)
+    let mut e = FontBuilder::new();
+    for t in HTAGS {
+        e.add_raw(Tag::new(t), Vec::<u8>::new());
+    }
+    let mut files = vec![(a.build(), 0), (b.build(), 0), (e.build(), 0)];
     let mut models = vec![
         vec![(*b"aaaa", vec![0xA1u8; 7]), (*b"zzzz", vec![0xA2u8; 5])],
         // the source font's own head got its adjustment field rewritten when *it* was built:
         // bytes 8..12 are excepted by the statement, and check_sfnt skips them for `head`.
-        vec![(*b"head", vec![0xB1u8; 14]), (*b"DSIG", vec![0xB2u8; 4])],
+        vec![(*b"head", vec![0xB1u8; 14]), (*b"DSIG", vec![0xB2u8; 4]), (*b"CFF ", vec![0xB3u8; 9])],
+        HTAGS.iter().map(|t| (**t, vec![])).collect(),
     ];
     let ttc = std::fs::read(repo_root().join("font-test-data/test_data/ttc/TTC.ttc")).unwrap_or_default();
     for i in 0..2 {
@@ -513,13 +524,15 @@ fn sources() -> Sources {
     Sources { files, models }
 }
 
-const N_ADD: u32 = 6;
+/// add_raw ops: 3 tags x {blob A, blob B, EMPTY blob}
+const N_ADD: u32 = 9;
 
 fn op_name(op: u32) -> String {
     if op < N_ADD {
-        format!("add_raw({},{})", Tag::new(HTAGS[(op / 2) as usize]), if op % 2 == 0 { "A" } else { "B" })
+        format!("add_raw({},{})", Tag::new(HTAGS[(op / 3) as usize]), ["A", "B", "empty"][(op % 3) as usize])
     } else {
-        format!("copy_missing(S{}{})", op - 5, if op >= 8 { ":TTC member" } else { "" })
+        let i = op - N_ADD;
+        format!("copy_missing(S{}{})", i + 1, ["", "", ":empty tables", ":TTC member", ":TTC member"].get(i as usize).copied().unwrap_or(""))
     }
 }
 
@@ -530,10 +543,10 @@ fn run_history(run: &Run, ops: &[u32], srcs: &Sources, l: &mut Local) {
     let built = guard(|| {
         let mut b = FontBuilder::new();
         for &op in ops {
-            if op < 6 {
-                b.add_raw(Tag::new(HTAGS[(op / 2) as usize]), hist_blob((op / 2) as usize, (op % 2) as usize));
+            if op < N_ADD {
+                b.add_raw(Tag::new(HTAGS[(op / 3) as usize]), hist_blob((op / 3) as usize, (op % 3) as usize));
             } else {
-                let (bytes, index) = &srcs.files[(op - 6) as usize];
+                let (bytes, index) = &srcs.files[(op - N_ADD) as usize];
                 let f = FontRef::from_index(bytes, *index).expect("source font opens");
                 b.copy_missing_tables(f);
             }
@@ -541,12 +554,12 @@ fn run_history(run: &Run, ops: &[u32], srcs: &Sources, l: &mut Local) {
         b.build()
     });
     for &op in ops {
-        if op < 6 {
-            // last add_raw wins
-            model.insert(*HTAGS[(op / 2) as usize], hist_blob((op / 2) as usize, (op % 2) as usize));
+        if op < N_ADD {
+            // last add_raw wins (an empty blob is a supplied table like any other)
+            model.insert(*HTAGS[(op / 3) as usize], hist_blob((op / 3) as usize, (op % 3) as usize));
         } else {
             // copying never overrides
-            for (t, bytes) in &srcs.models[(op - 6) as usize] {
+            for (t, bytes) in &srcs.models[(op - N_ADD) as usize] {
                 model.entry(*t).or_insert_with(|| bytes.clone());
             }
         }
@@ -574,15 +587,15 @@ fn run_history(run: &Run, ops: &[u32], srcs: &Sources, l: &mut Local) {
             h.u64(ch.wrapped as u64);
             l.all.insert(h.finish());
             // non-trivial: a copy happened after at least one add, or a tag was added twice
-            let has_copy = ops.iter().any(|o| *o >= 6);
-            let has_add = ops.iter().any(|o| *o < 6);
+            let has_copy = ops.iter().any(|o| *o >= N_ADD);
+            let has_add = ops.iter().any(|o| *o < N_ADD);
             if has_copy && has_add {
                 l.nontrivial.insert(h.finish());
             }
         }
         Err((class, detail)) => {
             // identity: failing clause + the shape of the history (op kinds only)
-            let kinds: Vec<&str> = ops.iter().map(|o| if *o < 6 { "add" } else { "copy" }).collect();
+            let kinds: Vec<&str> = ops.iter().map(|o| if *o >= N_ADD { "copy" } else if *o % 3 == 2 { "add-empty" } else { "add" }).collect();
             run.violation(
                 &format!("FontBuilder history: {class} after [{}]", kinds.join(",")),
                 &format!("{:?}: {}", names, detail),
@@ -596,7 +609,7 @@ fn histories(run: &Run, depth: usize) {
     let srcs = sources();
     let n_ops = N_ADD + srcs.files.len() as u32;
     run.count("copy_sources", srcs.files.len() as u64);
-    if srcs.files.len() != 4 {
+    if srcs.files.len() != 5 {
         run.machinery_error("TTC.ttc test collection not found or not parseable: TTC-member sources missing");
     }
     // all op sequences of length 0..=depth, in fixed (length, lexicographic) order
@@ -723,7 +736,7 @@ fn body(run: &Run, replay: Option<&Value>) {
     // (b) histories
     let depth = run.tier.pick(4, 5);
     run.bound("history_depth", json!(depth));
-    run.bound("history_ops", json!((0..N_ADD + 4).map(op_name).collect::<Vec<_>>()));
+    run.bound("history_ops", json!((0..N_ADD + 5).map(op_name).collect::<Vec<_>>()));
     histories(run, depth);
     // samples
     let s = MapCase { tags: vec![0, 2, 5], lens: vec![13, 3, 16], fills: vec![1, 2, 1], order: vec![2, 0, 1] };
